@@ -146,7 +146,7 @@ FinalizeAct(sl, m) ==
   /\ sl \in DOMAIN st.w["w1"].ctxs
   /\ LET cx == st.w["w1"].ctxs[sl]
          late == cx.late.on
-         sel == Select(st, "w1", st.w["w1"].active, cx.amt, Height(st), 1, 1)
+         sel == Select(st, "w1", cx.acct, cx.amt, Height(st), 1, 1)
          r == Finalize(st, "w1", [sl |-> sl, stage |-> "S2", rep |-> m.rep, rkern |-> "rpart", ttl |-> m.ttl, valid |-> TRUE, proofok |-> TRUE,
                                   hasproof |-> FALSE, rout |-> {m.rout}, lsel |-> sel.sel, lchg |-> ChgSeq(sel)])
          s2 == LastOr(r.steps, st) IN
@@ -267,7 +267,7 @@ ForeignFinalizeBogus(sl) ==
   /\ \E m \in net : m.sl = sl /\ m.stage = "S1"
   /\ LET m == CHOOSE m \in net : m.sl = sl /\ m.stage = "S1"
          cx == st.w["w1"].ctxs[sl]
-         sel == Select(st, "w1", st.w["w1"].active, cx.amt, Height(st), 1, 1)
+         sel == Select(st, "w1", cx.acct, cx.amt, Height(st), 1, 1)
          r == Finalize(st, "w1", [sl |-> sl, stage |-> "S2", rep |-> 0, rkern |-> "part", ttl |-> m.ttl, valid |-> FALSE, proofok |-> TRUE,
                                   hasproof |-> FALSE, rout |-> {}, lsel |-> sel.sel, lchg |-> ChgSeq(sel)])
          s2 == LastOr(r.steps, st) IN
